@@ -6,5 +6,5 @@ mkdir -p /tmp/q/sweep
 for id in $ids; do
   VERIF_SEED=$seed /verif/check $id $tier > /tmp/q/sweep/$id.$tier.$seed.log 2>&1; rc=$?
   echo "$id seed=$seed exit=$rc $(grep -E "^$id $tier:" /tmp/q/sweep/$id.$tier.$seed.log) $(grep -c '^VIOLATION' /tmp/q/sweep/$id.$tier.$seed.log) viol"
-  if [ $rc -ne 0 ]; then mkdir -p /tmp/q/sweep/replays; cp -r /verif/replay/$id /tmp/q/sweep/replays/$id.$seed 2>/dev/null; fi
+  if [ $rc -ne 0 ]; then mkdir -p /tmp/q/sweep/replays; rm -rf /tmp/q/sweep/replays/$id.$tier.$seed; cp -r /verif/replay/$id /tmp/q/sweep/replays/$id.$tier.$seed 2>/dev/null; fi
 done
